@@ -143,6 +143,56 @@ Definition common_ancestors_pos (g : graph) (s1 s2 : list nat) : option (list na
   | Some r => heads_pos g r
   end.
 
+(** ** heads_from_range_and_filter (composite.rs:482-515), used by the revset engine for
+    heads(roots..heads & filter) *)
+(** composite.rs:724 shift_to_parents_until: returns the queue and whether [target] was hit *)
+Fixpoint shift_until (g : graph) (fuel : nat) (q : list nat) (target : nat) : option (list nat * bool) :=
+  match fuel with
+  | O => None
+  | S f =>
+    match q with
+    | [] => Some (q, false)
+    | p :: _ =>
+      if (p <? target)%nat then Some (q, false)
+      else let q' := shift_to_parents q (parents g p) in
+           if (p =? target)%nat then Some (q', true) else shift_until g f q' target
+    end
+  end.
+(** rev_walk.rs:678 filter_slice_by_range *)
+Definition slice_range (lo hi : nat) (ps : list nat) : list nat := firstn (hi - lo) (skipn lo ps).
+Fixpoint hrf_loop (g : graph) (lo hi : nat) (filter : nat -> bool) (fuel : nat)
+    (wanted unwanted found : list nat) : option (list nat) :=
+  match fuel with
+  | O => None
+  | S f =>
+    match wanted with
+    | [] => Some (rev found)
+    | pos :: _ =>
+      match shift_until g (top_fuel unwanted) unwanted pos with
+      | None => None
+      | Some (unwanted', true) => hrf_loop g lo hi filter f (dedup_pop wanted) unwanted' found
+      | Some (unwanted', false) =>
+        if filter pos
+        then hrf_loop g lo hi filter f (dedup_pop wanted) (hextend (parents g pos) unwanted') (pos :: found)
+        else hrf_loop g lo hi filter f (shift_to_parents wanted (slice_range lo hi (parents g pos)))
+                      unwanted' found
+      end
+    end
+  end.
+Definition heads_from_range_and_filter (g : graph) (roots heads : list nat) (lo hi : nat)
+    (filter : nat -> bool) : option (list nat) :=
+  match heads with
+  | [] => Some []
+  | _ => hrf_loop g lo hi filter (S (hmeasure (heap_from heads))) (heap_from heads) (heap_from roots) []
+  end.
+(** revset_engine.rs:920-957: roots and heads are revsets (descending, duplicate-free), the
+    heads that are roots are dropped first *)
+Definition heads_range (g : graph) (roots heads : list nat) (lo hi : nat) (flt : nat -> bool)
+    : option (list nat) :=
+  let rs := dedup_adj (heap_from roots) in
+  let hs := List.filter (fun h => negb (memn h rs)) (dedup_adj (heap_from heads)) in
+  heads_from_range_and_filter g rs hs lo hi flt.
+
 (** ** all_heads_pos (composite.rs:403-416): positions that are nobody's parent, ascending *)
 Definition all_heads_pos (g : graph) : list nat :=
   filter (fun i => negb (existsb (memn i) g)) (seq 0 (length g)).
@@ -248,6 +298,12 @@ Definition spec_common (g : graph) (s1 s2 : list nat) : list nat :=
   heads_of g (common_set g s1 s2).
 Definition spec_heads (g : graph) (cands : list nat) : list nat :=
   heads_of g (dedup_adj (heap_from cands)).
+(** heads(roots..heads & filter) with every parent followed: the maximal commits among the
+    ancestors of [heads] that are not ancestors of [roots] and pass the filter *)
+Definition spec_heads_range (g : graph) (roots heads : list nat) (flt : nat -> bool) : list nat :=
+  let t := ancsets g in
+  heads_of g (List.filter (fun x => anc_any_t t heads x && negb (anc_any_t t roots x) && flt x)
+                          (all_pos_desc g)).
 
 (** ** correspondence case *)
 Inductive query :=
@@ -255,7 +311,9 @@ Inductive query :=
 | QHeads (cands : list nat) (res : list nat)  (* Index::heads *)
 | QCommon (s1 s2 : list nat) (res : list nat) (* Index::common_ancestors *)
 | QGen (x : nat) (res : nat)                  (* DefaultReadonlyIndex::generation_number *)
-| QAllHeads (res : list nat).                 (* Index::all_heads_for_gc *)
+| QAllHeads (res : list nat)                  (* Index::all_heads_for_gc *)
+| QHeadsRange (roots heads : list nat) (lo hi : nat) (fset : option (list nat)) (res : list nat).
+                                              (* ResolvedExpression::HeadsRange, filter = in set *)
 
 Record snap := mk_snap {
   s_graph : graph;             (* parents by position, positions from the index's own order *)
@@ -295,6 +353,10 @@ Definition query_corr (g : graph) (q : query) : bool :=
   | QCommon s1 s2 r => option_eqb lnat_eqb (common_ancestors_pos g s1 s2) (Some r)
   | QGen x r => (gen g x =? r)%nat
   | QAllHeads r => lnat_eqb (all_heads_pos g) r
+  | QHeadsRange rs hs lo hi fs r =>
+      option_eqb lnat_eqb
+        (heads_range g rs hs lo hi (match fs with Some l => fun x => memn x l | None => fun _ => true end))
+        (Some r)
   end.
 
 (** The property, checked on the implementation's answer against the graph itself. *)
@@ -306,6 +368,13 @@ Definition query_ok (g : graph) (q : query) : bool :=
   | QGen x r =>
       (r =? list_max (map (fun p => S (gen g p)) (parents g x)))%nat
   | QAllHeads r => lnat_eqb (rev (heads_of g (all_pos_desc g))) r
+  | QHeadsRange rs hs lo hi fs r =>
+      (* the declarative statement covers the case in which every parent is followed *)
+      if (lo =? 0)%nat && forallb (fun ps => (length ps <=? hi)%nat) g
+      then lnat_eqb (spec_heads_range g rs hs
+                       (match fs with Some l => fun x => memn x l | None => fun _ => true end)) r
+           && in_range g rs && in_range g hs
+      else true
   end.
 
 Definition snap_corr (s : snap) : bool := forallb (query_corr (s_graph s)) (s_queries s).
